@@ -1,6 +1,8 @@
 """C09 - grain refinement recovers orientation, cell and position from simulated data.
 
-specs: RefineFlow.tla (protocol of refinegrains: the grain translation travels through the global parameter object;
+specs: RefineFlow.tla (protocol of refinegrains: the grain translation travels through the global parameter object; the kernel's
+       loop over the peak file in chunks of BLOCK rows and the type of the start translation are constants, with the seeded
+       defects TAIL_COUNT / KEEP_DTYPE caught by BestOwner / StoredIsFitted;
        all interleavings of the public calls; peak ownership explicit: the competing-owner rule of score_and_assign,
        BestOwner / OrderIndependent; the save step with its (grain object, key) pairs for both values of sort_npks and
        the per-peak column state, SavedColumnsOwn), TraceRefineFlow.tla (trace validation of real runs: protocol + the
@@ -18,7 +20,16 @@ Mode C: peaks are forward-simulated (c09_sim.py, validated by an independent for
        writefile), on perturbed starting grains, omega as observed and floated, savegrains with sort_npks off and on
        (grains listed by increasing number of peaks, so that sorting permutes them), the simulated omegas presented in
        the scan ranges 0..360, -360..0, -180..180, 360..720, -90..270, 90..450, -270..90, 180..540 with omegasign +1 and
-       -1, OmSlop 0.05 and 0.25.  Wrappers installed from the harness
+       -1, OmSlop 0.05 and 0.25.  TYPE of the starting values (START_KINDS): besides the grain file, the user-script route starts
+       from grains built in memory, grain.grain(ubi, translation), handed over as grid_index_parallel.domap does, with the
+       translation a list of python ints / an int64 / int32 array (the start position on the nearest whole micron, a grid
+       node) / a float32 array / a tuple / a list of floats and the ubi a float64 / float32 array / nested lists; and
+       translation-less grain files with "t_x 0" (an integer) in the parameter file, both routes: same bounds, same rules
+       (the translation a grain holds after its position refinement is the one the fit left in the parameter object).
+       SIZE: peak files of 4097, 4768, 8191 and 8500 rows (3-5 grains, reflections to a larger d* at a shorter wavelength;
+       strays anywhere, a simulated peak in the last row): every row judged, the rows around every multiple of 4096 and the
+       first / last rows among the peaks TLC follows call by call; every score_and_assign call must be handed all rows.
+       Wrappers installed from the harness
        record set_translation / compute_gv / gof / refine / score_and_assign (arguments, and the label / error arrays
        after every call) / cImageD11.compute_gv.  For every score_and_assign call the error of that grain on every
        peak is recomputed by c09_sim (forward model of the harness, ubi and translation the call was made with);
@@ -38,6 +49,7 @@ import common
 import c09_sim
 
 PROP = "C09"
+WORKERS = int(os.environ.get("C09_TLC_WORKERS", "16"))     # TLC worker threads (a loaded box: C09_TLC_WORKERS=4)
 BOUND_UBI_REL = 1e-5       # |dUBI| <= 1e-5 * max|UBI|  (worst observed over 768 scenario runs: 3.1e-6 relative)
 BOUND_T = 10.0             # micron (0.2 pixel).  DESIGN.md fixed 1 um from a 4-scenario probe; over 512 in-domain
                            # scenarios the simplex (stops when the spread of 1e6<drlv2> over its vertices is < 1e-4,
@@ -138,7 +150,8 @@ class Recorder(object):
 
         def c_assign(ubi, gv, tol, drlv2, labels, label):
             reset = bool((labels == -1).all() and (drlv2 == 1).all())
-            R.ev.append({"k": "assign", "label": int(label) + 1, "reset": reset, "tol": tolid(tol), "call": len(R.calls)})
+            R.ev.append({"k": "assign", "label": int(label) + 1, "reset": reset, "tol": tolid(tol), "call": len(R.calls),
+                         "n": int(min(len(labels), len(drlv2), len(gv)))})
             call = {"ubi": np.array(ubi, float), "t": R.last_t, "tol": float(tol), "label": int(label)}
             R.calls.append(call)
             try:
@@ -204,9 +217,60 @@ OMRANGES = (None, 0.0, -360.0, -180.0, 360.0, -90.0, 90.0, -270.0, 180.0)
 OMSLOP = 0.05              # degrees, OmSlop of a run unless the plan says otherwise (0.25: the start error of 2 mrad never clips)
 
 
-def plan_entry(k, ng, omf, notrans=False, fam="random", order="id", tol=0.05, route="makemap", omrange=None, sort=False, slop=OMSLOP):
+# how the starting grains reach the refinegrains object.  "file": the grain file read with readubis (text -> floats).
+# "par_int": no translation in the grain file and the parameter file says "t_x 0" (read as a python int: generate_grains then
+# builds the start translation of every grain from integers).  Every other kind (route "api" only): the grains are built in
+# memory, grain.grain(ubi, translation), and handed over the way grid_index_parallel.domap does (grainnames / ubisread /
+# translationsread); the kind names the python / numpy TYPE of (ubi, translation).  Integer kinds hold the start position
+# rounded to whole units (a grid node), float32 kinds the float32 values.  The property does not depend on the type: the same
+# bounds, the same exact protocol rules (the translation stored for a grain is the one the fit left in the parameter object).
+START_KINDS = {"file": None, "par_int": None,
+               "int_list": ("f64", "int_list"), "int64": ("list", "int64"), "int32": ("f32", "int32"), "f32": ("f32", "f32"),
+               "tuple": ("list", "tuple"), "float_list": ("f64", "float_list"), "f64": ("f64", "f64")}
+INT_KINDS = ("par_int", "int_list", "int64", "int32")
+NSTRAY = 15
+BLOCK = 4096               # peak files longer than this (and not a multiple of it) are the SIZE dimension (plan field "size")
+
+
+def typed_values(kind, u, t):
+    """the values (float64) a start of this kind holds"""
+    if START_KINDS.get(kind) is None:
+        return np.asarray(u, float), t
+    uk, tk = START_KINDS[kind]
+    u = np.asarray(u, float)
+    if uk == "f32":
+        u = u.astype(np.float32).astype(float)
+    if t is not None:
+        t = np.asarray(t, float)
+        t = np.rint(t) if tk.startswith("int") else (t.astype(np.float32).astype(float) if tk == "f32" else t)
+    return u, t
+
+
+def typed_objects(kind, u, t):
+    """(ubi, translation) as python / numpy objects of the types the kind names, holding exactly the values u, t"""
+    uk, tk = START_KINDS[kind]
+    uo = {"f64": lambda: np.array(u, float), "f32": lambda: np.array(u, np.float32),
+          "list": lambda: [[float(x) for x in r] for r in u]}[uk]()
+    to = None
+    if t is not None:
+        to = {"int_list": lambda: [int(x) for x in t], "int64": lambda: np.array(t).astype(np.int64),
+              "int32": lambda: np.array(t).astype(np.int32), "f32": lambda: np.array(t, np.float32),
+              "tuple": lambda: tuple(float(x) for x in t), "float_list": lambda: [float(x) for x in t],
+              "f64": lambda: np.array(t, float)}[tk]()
+        if not np.array_equal(np.asarray(to, float), np.asarray(t, float)):
+            raise common.MachineryError("start kind %s cannot hold the translation %r" % (kind, t))
+    if not np.array_equal(np.asarray(uo, float), np.asarray(u, float)):
+        raise common.MachineryError("start kind %s cannot hold the ubi" % kind)
+    return uo, to
+
+
+def plan_entry(k, ng, omf, notrans=False, fam="random", order="id", tol=0.05, route="makemap", omrange=None, sort=False, slop=OMSLOP,
+               start="file", size=None):
+    if start not in START_KINDS or (START_KINDS[start] is not None and route != "api") or (start == "par_int" and not notrans):
+        raise common.MachineryError("plan: start kind %r does not go with route %r / notrans %r" % (start, route, notrans))
     return {"scenario": k, "ngrains": ng, "omega_float": bool(omf), "notrans": bool(notrans), "family": fam, "order": order,
-            "tol": tol, "route": route, "omrange": omrange, "sort": bool(sort), "slop": float(slop)}
+            "tol": tol, "route": route, "omrange": omrange, "sort": bool(sort), "slop": float(slop), "start": start,
+            "size": (None if size is None else int(size))}
 
 
 def place_order(sp, data):
@@ -238,15 +302,30 @@ def generate(sp, mods):
                 related[ngrains - 1] = (2, fam)
         # notrans: the starting grain file carries no #translation lines (first makemap run): every grain starts from the
         # global t_x, t_y, t_z = 0 of the parameter file, so the true positions are kept within the 30 um start offset
+        size, dsmax = sp.get("size"), 0.85
+        if size:
+            # SIZE: a peak file of exactly `size` rows (size - NSTRAY simulated peaks + the strays): reflections up to the d* that
+            # gives a few more peaks than needed (2 pi d*^3 a^3 / 3 per fcc grain), the wavelength that keeps those rings on the
+            # detector ; surplus peaks are dropped at random ("not observed")
+            dsmax = (1.12 * (size - NSTRAY) / ngrains * 3.0 / (2 * np.pi * pars["cell__a"] ** 3)) ** (1.0 / 3) * (1.04 ** (attempt % 4))
+            pars["wavelength"] = float(np.round(2 * np.sin(0.5 * np.arctan(48000.0 / pars["distance"])) / dsmax, 5))
         uc, grains, tab, worst = c09_sim.simulate(rng, transform, unitcell_mod, pars, ngrains, tmax=(25.0 if notrans else 500.0),
-                                                  related=related, rng2=rng2)
+                                                  related=related, rng2=rng2, dsmax=dsmax)
         if len(tab) < 60 * ngrains or worst > 1e-7:
             raise common.MachineryError("simulation produced %d peaks (worst forward error %g) for scenario %d" % (len(tab), worst, k))
         perm = rng.permutation(len(tab))
         tab = tab[perm]
+        if size:
+            if len(tab) < size - NSTRAY:
+                why.append("only %d simulated peaks for a peak file of %d rows" % (len(tab), size))
+                continue
+            tab = tab[:size - NSTRAY]
+            if min(int((tab[:, 3] == g).sum()) for g in range(ngrains)) < 60:
+                why.append("a grain kept fewer than 60 peaks")
+                continue
         # a few stray peaks that belong to no grain: kept only if clearly not indexable by any generating grain
         # (hkl error > 0.15 in the independent forward model), so that "assigned to the grain that produced it" is well posed
-        nstray = 15
+        nstray = NSTRAY
         stray = []
         while len(stray) < nstray:
             cand = np.array([rng.uniform(100, 1900), rng.uniform(100, 1900), rng.uniform(-180, 180)])
@@ -259,13 +338,21 @@ def generate(sp, mods):
             if ok:
                 stray.append([cand[0], cand[1], cand[2], -1.0, 0.0, 0.0, 0.0])
         full = np.vstack([tab, np.array(stray)])
+        if size:
+            # the strays anywhere in the file, a simulated peak in the last row: whatever part of a long file the code under
+            # test treats differently (a last block, a remainder) holds peaks that have to be assigned
+            full = full[rng.permutation(len(full))]
+            if full[-1, 3] < 0:
+                j = int(np.nonzero(full[:, 3] >= 0)[0][-1])
+                full[[j, -1]] = full[[-1, j]]
         if sp.get("omrange") is not None:
             full[:, 2] = c09_sim.to_range(full[:, 2], sp["omrange"])       # the same peaks seen in another scan range
         start = []
         for (ubi, t) in grains:
             u0 = ubi @ c09_sim.small_rotation(rng, 2e-3).T
             t0 = t + rng.uniform(-30, 30, size=3)
-            start.append((u0, None if notrans else t0))
+            # the values the start holds in its representation (integer kinds: the nearest whole unit, float32 kinds: float32)
+            start.append(typed_values(sp.get("start", "file"), u0, None if notrans else t0))
         # what refinegrains will start from: the grain file is text (%.9g / %g), a missing translation is the global one
         glob = np.array([pars["t_x"], pars["t_y"], pars["t_z"]])
         sc, fc, om = full[:, 0], full[:, 1], full[:, 2]
@@ -306,10 +393,13 @@ def tracked_rows(data, tol):
     rest = np.setdiff1d(np.arange(e.shape[1]), contested)
     plain = rest[np.linspace(0, len(rest) - 1, min(NTRACK_PLAIN - 4, len(rest))).astype(int)] if len(rest) else rest
     strays = np.nonzero(data["gen"] < 0)[0][:4]
-    return np.unique(np.concatenate([contested, plain, strays])).astype(int)
+    # a long file: the rows on both sides of every multiple of BLOCK, the first and the last row
+    n = e.shape[1]
+    edges = np.array([r for m in range(0, n + 1, BLOCK) for r in (m - 2, m - 1, m, m + 1) if 0 <= r < n] + [0, n - 2, n - 1]) if n > BLOCK else np.zeros(0, int)
+    return np.unique(np.concatenate([contested, plain, strays, edges])).astype(int)
 
 
-def run_route(sp, mods, files, rec):
+def run_route(sp, mods, files, rec, startobjs=None):
     """drive the code under test: scripts/makemap.py or the calls of a user script (refinegrains API)"""
     transform, unitcell_mod, parameters, columnfile, grain, rgmod, makemap = mods
     parfile, fltfile, ubifile, newubi, newflt = files
@@ -323,7 +413,16 @@ def run_route(sp, mods, files, rec):
     o = rgmod.refinegrains(OmFloat=bool(sp["omega_float"]), OmSlop=sp["slop"])
     o.loadparameters(parfile)
     o.loadfiltered(fltfile)
-    o.readubis(ubifile)
+    if startobjs is None:
+        o.readubis(ubifile)
+    else:
+        # starting grains built in memory by the caller (grid_index_parallel.doindex: grain.grain(ubi, [x, y, z])) and handed
+        # over as grid_index_parallel.domap does
+        for i, (uo, to) in enumerate(startobjs):
+            g = grain.grain(uo, to)
+            o.grainnames.append(i)
+            o.ubisread[i] = g.ubi
+            o.translationsread[i] = g.translation
     o.tolerance = float(sp["tol"])
     o.generate_grains()
     o.assignlabels()
@@ -570,8 +669,8 @@ def scenario(chk, sp, mods, tag, data=None, peer=None, probe=False):
     os.makedirs(d, exist_ok=True)
     parfile, fltfile, ubifile = [os.path.join(d, n) for n in ("sim.par", "sim.flt", "start.map")]
     newubi, newflt = os.path.join(d, "out.map"), os.path.join(d, "out_unindexed.flt")
-    po = parameters.parameters(**pars)
-    po.saveparameters(parfile)
+    po = parameters.parameters(**(dict(pars, t_x=0, t_y=0, t_z=0) if sp.get("start") == "par_int" else pars))
+    po.saveparameters(parfile)      # par_int: "t_x 0" in the file, a python int once loaded
     cf = columnfile.colfile_from_dict({"sc": full[:, 0].copy(), "fc": full[:, 1].copy(), "omega": full[:, 2].copy(),
                                        "Number_of_pixels": np.full(len(full), 10.0), "avg_intensity": np.full(len(full), 100.0),
                                        "sum_intensity": np.full(len(full), 1000.0), "spot3d_id": np.arange(len(full), dtype=float)})
@@ -579,18 +678,21 @@ def scenario(chk, sp, mods, tag, data=None, peer=None, probe=False):
     cf.writefile(fltfile)
     data = dict(data, as_written=read_positions(fltfile, len(full)))
     grain.write_grain_file(ubifile, [grain.grain(data["start"][g][0], translation=data["start"][g][1]) for g in order])
+    inmem = START_KINDS.get(sp.get("start", "file")) is not None
+    startobjs = [typed_objects(sp["start"], *data["start"][g]) for g in order] if inmem else None
     rec = Recorder(rgmod, ngrains)
     rec.install()
     err = None
     try:
         with contextlib.redirect_stdout(io.StringIO()):
-            run_route(sp, mods, (parfile, fltfile, ubifile, newubi, newflt), rec)
+            run_route(sp, mods, (parfile, fltfile, ubifile, newubi, newflt), rec, startobjs=startobjs)
     except Exception as e:           # noqa
         import traceback
         err = "%r\n%s" % (e, traceback.format_exc()[-800:])
     finally:
         rec.remove()
-    meta = dict(sp, seed=common.seed(), npeaks=int((gen >= 0).sum()), attempt=data["attempt"], ncontested=data["ncontested"],
+    meta = dict(sp, seed=common.seed(), npeaks=int((gen >= 0).sum()), nrows=int(len(full)), attempt=data["attempt"], ncontested=data["ncontested"],
+                wavelength=pars["wavelength"], peaks_in_last_block=int((gen[(len(full) // BLOCK) * BLOCK:] >= 0).sum()) if len(full) > BLOCK else 0,
                 pars={kk: pars[kk] for kk in ("o11", "o12", "o21", "o22", "omegasign", "tilt_x", "tilt_y", "tilt_z", "wedge", "chi", "distance")})
     if err:
         chk.violation("refinement raised on simulated data: %s" % err.splitlines()[0], dict(meta, traceback=err))
@@ -669,7 +771,7 @@ def scenario(chk, sp, mods, tag, data=None, peer=None, probe=False):
     cratio = [int(min(2e9, np.ceil(1000.0 * cols[c][0] / cols[c][1]))) for c in colnames]
     p0 = po.parameters
     genplace = {g: p for p, g in enumerate(order)}
-    record = {"id": tag, "NG": ngrains, "utol": tolid(sp["tol"]),
+    record = {"id": tag, "NG": ngrains, "utol": tolid(sp["tol"]), "nrows": int(len(full)),
               "gt0": [0] * ngrains, "pt0": 0, "ev": None,
               "dubi": dubi, "bubi": bubi, "dt": dt, "bt": int(BOUND_T * 1e3),
               "labels_ok": bool(labels_ok), "hkl_ok": bool(hkl_ok), "files_ok": bool(files_ok),
@@ -681,6 +783,8 @@ def scenario(chk, sp, mods, tag, data=None, peer=None, probe=False):
     # initial translation ids: as read from the start file (values after the %g text round trip)
     st = grain.read_grain_file(ubifile)
     glob_t = (p0["t_x"], p0["t_y"], p0["t_z"])
+    if inmem:        # the values handed over in memory (exact in their type), not their %g text in the start file
+        st = [types.SimpleNamespace(translation=data["start"][g][1]) for g in order]
     record["gt0"] = [rec.tid(g.translation if g.translation is not None else glob_t) for g in st]
     record["pt0"] = rec.tid((p0["t_x"], p0["t_y"], p0["t_z"]))
     record["ev"] = rec.ev
@@ -705,11 +809,11 @@ def omega_float_cases(chk, mods, tier, only=None):
     ticks) for grain.omega_calc and for the g-vector when omega is floated; the g-vector of the observed angle when not."""
     transform, unitcell_mod, parameters, columnfile, grain, rgmod, makemap = mods
     cfg = "OmegaFloat_t" if tier == "thorough" else "OmegaFloat_q"
-    res = common.run_tlc("OmegaFloat", os.path.join(common.SPECS, cfg + ".cfg"), workers=16, timeout=900)
+    res = common.run_tlc("OmegaFloat", os.path.join(common.SPECS, cfg + ".cfg"), workers=WORKERS, timeout=900)
     chk.add_tlc(cfg, res)
     if res.violated:
         raise common.MachineryError("OmegaFloat model violates %s" % res.violated)
-    bug = common.run_tlc("OmegaFloat", os.path.join(common.SPECS, "OmegaFloat_bug.cfg"), workers=16, timeout=900)
+    bug = common.run_tlc("OmegaFloat", os.path.join(common.SPECS, "OmegaFloat_bug.cfg"), workers=WORKERS, timeout=900)
     chk.add_tlc("OmegaFloat fmod wrap (expected: FloatedRight violated)", bug)
     if "FloatedRight" not in bug.violated:
         raise common.MachineryError("seeded wrap defect (fmod) not detected by the model (vacuity)")
@@ -812,6 +916,21 @@ def validate(chk, recs, tag):
     return verdicts
 
 
+def typed_and_sized(E, v):
+    """TYPE: every kind of in-memory start (python / numpy type of ubi and translation) and the integer-typed global translation
+    of the parameter file, over omega modes / sort / scan range / contested families ; SIZE: peak files of more than 4096 rows
+    that are not a multiple of 4096 (remainders 1, 672, 308 + 4096, 4095), every row judged.  v varies the scenario numbers."""
+    k = lambda x: (x + 11 * v) % 64
+    return [E(k(22), 3, False, route="api", start="int_list"), E(k(45), 2, True, route="api", start="int64"),
+            E(k(36), 3, True, route="api", start="int32", omrange=0.0, sort=True, order="asc"),
+            E(k(13), 2, False, route="api", start="f32", sort=True, order="asc"), E(k(6), 2, True, route="api", start="tuple"),
+            E(k(19), 1, False, route="api", start="float_list"), E(k(58), 3, False, route="api", start="f64", fam="subgrain"),
+            E(k(41), 2, False, route="api", start="int_list", fam="twin"),
+            E(k(11), 3, False, True, start="par_int"), E(k(52), 2, True, True, route="api", start="par_int"),
+            E(k(27), 5, False, size=BLOCK + 672), E(k(40), 5, True, size=2 * BLOCK + 308, route="api"),
+            E(k(3), 3, False, size=BLOCK + 1, sort=True, order="asc"), E(k(50), 4, False, size=2 * BLOCK - 1, route="api", start="int64")]
+
+
 def run(tier, replay=None):
     chk = common.Check(PROP, tier)
     shadow = common.build_shadow("normal")
@@ -826,9 +945,12 @@ def run(tier, replay=None):
                 "families random / subgrain / twin (the last two produce peaks inside the tolerance of two grains and are run with two "
                 "grain orders); routes makemap() and the refinegrains calls of a user script; every score_and_assign call judged on every peak "
                 "(tracked sample in TLC, the rest by the harness with the same definitions); the omega range of the scan (8 ranges) x omegasign "
-                "x omega mode x sort_npks x OmSlop (0.05, 0.25); every per-peak column of the saved peak file and of the table in memory judged "
+                "x omega mode x sort_npks x OmSlop (0.05, 0.25); start grains from a file or built in memory with the translation as python ints / "
+                "int64 / int32 / float32 / tuple / float list and the ubi as float64 / float32 / nested lists (user-script route), integer t_x t_y t_z "
+                "in the parameter file for translation-less starts; peak files of 4097 / 4768 / 8191 / 8500 rows (more than 4096, with a remainder); "
+                "every per-peak column of the saved peak file and of the table in memory judged "
                 "on every owned peak; OmegaFloat.tla cases (sign x range start x slop x computed angle x offset) all replayed into compute_gv; "
-                "non-trivial = >= 2 grains or a non-default geometry switch; distinct = (scenario, grains, omega mode, family, order, tolerance, route, omega range, sort_npks, slop) / OmegaFloat case")
+                "non-trivial = >= 2 grains or a non-default geometry switch; distinct = (scenario, grains, omega mode, family, order, tolerance, route, omega range, sort_npks, slop, start kind, size) / OmegaFloat case")
     chk.assumptions = ["peaks generated with the library's inverse functions but each validated by an independent forward model (1e-7)",
                        "bounds: |dUBI| <= 1e-5 max|UBI|, |dt| <= 10 um (0.2 pixel; start offset up to 30 um per axis, as fixed in DESIGN.md), exact labels and hkl",
                        "convergence of the simplex is observed, not modelled",
@@ -850,7 +972,7 @@ def run(tier, replay=None):
         else:
             plan = [E(case["scenario"], case["ngrains"], case["omega_float"], case.get("notrans", False), case.get("family", "random"),
                       case.get("order", "id"), case.get("tol", 0.05), case.get("route", "makemap"), case.get("omrange"),
-                      case.get("sort", False), case.get("slop", OMSLOP))]
+                      case.get("sort", False), case.get("slop", OMSLOP), case.get("start", "file"), case.get("size"))]
     elif tier == "quick":
         plan = [E(9, 2, False), E(38, 3, True), E(63, 2, False), E(20, 1, True), E(5, 4, False), E(14, 2, True), E(27, 5, False),
                 E(33, 2, True), E(42, 3, False), E(51, 1, False), E(60, 2, True), E(7, 3, True), E(48, 2, False), E(31, 2, True),
@@ -864,6 +986,7 @@ def run(tier, replay=None):
                 # savegrains(sort_npks=True) (the default of makemap.py) on contested / translation-less starts
                 E(33, 3, True, fam="subgrain", sort=True, order="rot", omrange=0.0), E(29, 4, False, True, sort=True, order="asc"),
                 E(48, 3, False, fam="twin", sort=True, route="api", omrange=-360.0, slop=0.25)]
+        plan += typed_and_sized(E, 0)
         # the omega range of the scan x omegasign (bit 5 of the scenario number) x omega as observed / floated: all 32
         # combinations, with sort_npks, the route, the slop and the number of grains cycling through them
         n = 0
@@ -894,27 +1017,37 @@ def run(tier, replay=None):
                 srt = bool((j + k // 2) % 2)
                 plan.append(E(k, max(2, ng) if srt else ng, bool((j + k // 4) % 2), omrange=omr, sort=srt, order=("asc" if srt else "id"),
                               route=("api" if (k + j) % 7 == 0 else "makemap"), slop=(0.25 if (k + j) % 3 == 0 else OMSLOP)))
+        for j in (0, 1):
+            plan += typed_and_sized(E, 1 + j)
     for c, cover in (("RefineFlow_q", True), ("RefineFlow_t", False), ("RefineFlow_t2", False)) if tier == "thorough" else (("RefineFlow_q", True),):
-        res = common.run_tlc("RefineFlow", os.path.join(common.SPECS, c + ".cfg"), workers=16, timeout=1800, coverage=cover)
+        res = common.run_tlc("RefineFlow", os.path.join(common.SPECS, c + ".cfg"), workers=WORKERS, timeout=1800, coverage=cover)
         chk.add_tlc(c, res, require_cover=(("AssignScore", "RPGof", "RPStore", "PerGrain", "PGSetT", "PGComputeGv", "PGUse") if cover else ()))
         if res.violated:
             raise common.MachineryError("RefineFlow model violates %s" % res.violated)
-    res = common.run_tlc("RefineFlow", os.path.join(common.SPECS, "RefineFlow_bug.cfg"), workers=16, timeout=900)
+    res = common.run_tlc("RefineFlow", os.path.join(common.SPECS, "RefineFlow_bug.cfg"), workers=WORKERS, timeout=900)
     chk.add_tlc("RefineFlow DROP_SETT (expected: NoBad violated)", res)
     if not res.violated:
         raise common.MachineryError("seeded protocol defect not detected by the model (vacuity)")
-    res = common.run_tlc("RefineFlow", os.path.join(common.SPECS, "RefineFlow_bug2.cfg"), workers=16, timeout=900)
+    res = common.run_tlc("RefineFlow", os.path.join(common.SPECS, "RefineFlow_bug2.cfg"), workers=WORKERS, timeout=900)
     chk.add_tlc("RefineFlow LAST_WINS (expected: BestOwner violated)", res)
     if "BestOwner" not in res.violated:
         raise common.MachineryError("seeded assignment defect (last grain listed wins) not detected by the model (vacuity)")
     if not replay or omega_only is not None:
         omega_float_cases(chk, mods, tier, only=omega_only)
-    res = common.run_tlc("RefineFlow", os.path.join(common.SPECS, "RefineFlow_bug3.cfg"), workers=16, timeout=900)
+    res = common.run_tlc("RefineFlow", os.path.join(common.SPECS, "RefineFlow_bug3.cfg"), workers=WORKERS, timeout=900)
     chk.add_tlc("RefineFlow SORT_OBJ_ONLY (expected: SavedColumnsOwn violated)", res)
     if "SavedColumnsOwn" not in res.violated:
         raise common.MachineryError("seeded save defect (grain objects sorted, keys not) not detected by the model (vacuity)")
+    res = common.run_tlc("RefineFlow", os.path.join(common.SPECS, "RefineFlow_bug4.cfg"), workers=WORKERS, timeout=900)
+    chk.add_tlc("RefineFlow TAIL_COUNT (expected: BestOwner violated)", res)
+    if "BestOwner" not in res.violated:
+        raise common.MachineryError("seeded size defect (rows after the last whole chunk not visited) not detected by the model (vacuity)")
+    res = common.run_tlc("RefineFlow", os.path.join(common.SPECS, "RefineFlow_bug5.cfg"), workers=WORKERS, timeout=900)
+    chk.add_tlc("RefineFlow KEEP_DTYPE (expected: StoredIsFitted violated)", res)
+    if "StoredIsFitted" not in res.violated:
+        raise common.MachineryError("seeded type defect (integer start translation truncates the stored fit) not detected by the model (vacuity)")
     recs, metas = [], {}
-    ncont = nlater = npermuted = nlow = 0
+    ncont = nlater = npermuted = nlow = nlong = ninmem = nintstart = 0
     for i, sp in enumerate(plan):
         contested = sp["family"] != "random"
         data = generate(sp, mods)
@@ -936,11 +1069,17 @@ def run(tier, replay=None):
                 nlater += meta["contested_later_listed"]
                 npermuted += int(rs["sort"] and meta["written"] != sorted(meta["written"]))
                 nlow += int(rs["omega_float"] and meta["omega_x_sign_range"][0] < -180.0)
+                nlong += int(meta["nrows"] > BLOCK and meta["peaks_in_last_block"] > 0 and meta["nrows"] % BLOCK != 0)
+                ninmem += int(START_KINDS[rs["start"]] is not None)
+                nintstart += int(rs["start"] in INT_KINDS)
             if j == 0:
                 peer = passes
     chk.notes["runs_where_sort_npks_permuted_the_grains"] = npermuted
     chk.notes["omega_float_runs_with_omega_x_sign_below_minus_180"] = nlow
     chk.notes["contested_peak_passes_judged"] = ncont
+    chk.notes["runs_with_more_than_4096_rows_and_a_remainder"] = nlong
+    chk.notes["runs_started_from_grains_built_in_memory"] = ninmem
+    chk.notes["runs_started_from_integer_typed_translations"] = nintstart
     chk.notes["contested_with_later_listed_competitor"] = nlater
     verdicts = validate(chk, recs, "runs") if recs else {}
     for r in recs:
@@ -960,6 +1099,9 @@ def run(tier, replay=None):
     if not replay and (npermuted < 8 or nlow < 4):
         raise common.MachineryError("vacuity: %d runs where savegrains(sort_npks=True) permuted the grains, %d omega-float runs with "
                                     "omega x omegasign below -180" % (npermuted, nlow))
+    if not replay and (nlong < (6 if tier == "thorough" else 3) or nintstart < 4 or ninmem < 6):
+        raise common.MachineryError("vacuity: %d runs on a peak file of more than %d rows with a remainder, %d starts built in memory, "
+                                    "%d integer-typed starts" % (nlong, BLOCK, ninmem, nintstart))
     if metas:
         chk.sample(metas[sorted(metas)[0]])
     worst = {}
@@ -991,6 +1133,9 @@ def selftest(chk=None, recs=None):
     bad3["id"] = "bad3"
     j = next(i for i, e in enumerate(bad3["ev"]) if e["k"] == "assign")
     bad3["ev"][j]["reset"] = False                # assignment pass without reset
+    bad12 = json.loads(json.dumps(base))
+    bad12["id"] = "bad12"
+    next(e for e in bad12["ev"] if e["k"] == "assign")["n"] -= 1      # the kernel was not handed the last row of the peak file
     bad8 = json.loads(json.dumps(base))
     bad8["id"] = "bad8"
     bad8["cratio"][0] = 1001                      # a per-peak column further from the forward model than its bound
@@ -1049,7 +1194,9 @@ def selftest(chk=None, recs=None):
     if chk is not None and chk.tier == "thorough" and not extra:
         raise common.MachineryError("selftest: no run with a contested tracked peak and a peer run")
     tmp = common.Check(PROP, "quick")
-    v = validate(tmp, [base, bad1, bad2, bad3, bad8] + extra + saves, "selftest")
+    v = validate(tmp, [base, bad1, bad2, bad3, bad8, bad12] + extra + saves, "selftest")
+    if v["bad12"]["ok"]:
+        raise common.MachineryError("selftest: a score_and_assign call on fewer rows than the peak file has was accepted")
     if v["bad8"]["ok"] or (saves and (not v["good9"]["ok"] or any(v[b["id"]]["ok"] for b in saves[1:]))):
         raise common.MachineryError("selftest: save step not binding: %s" % {b["id"]: v[b["id"]] for b in [bad8] + saves})
     if extra and (not v[extra[0]["id"]]["ok"] or any(v[b["id"]]["ok"] for b in extra[1:])):
